@@ -2,7 +2,7 @@
    positions of a symbol; the y_key bit vector as cell boundaries; psi as a permutation. *)
 From Coq Require Import Arith NArith List Bool Lia Sorted Permutation.
 From Blue Require Import Scrunch.ModelBits Scrunch.Model Scrunch.ModelWT Scrunch.ProofsBits
-  Scrunch.ProofsSorted Scrunch.ProofsSuffix Scrunch.ProofsSearch Scrunch.ProofsSigma.
+  Scrunch.ProofsSorted Scrunch.ProofsSuffix Scrunch.ProofsIAP Scrunch.ProofsSearch Scrunch.ProofsSigma.
 Import ListNotations.
 Local Open Scope nat_scope.
 
@@ -221,33 +221,6 @@ Qed.
 
 Lemma sumn_map_length_concat {A} (LL : list (list A)) : sumn (map (@length A) LL) = length (concat LL).
 Proof. induction LL as [|l LL IH]; [reflexivity|]. cbn [map sumn fold_right concat]. rewrite app_length. unfold sumn in IH. lia. Qed.
-
-(* ------------------------------------------------------------------ inverse of a permutation *)
-Lemma perm_of_bounded (x : list nat) : NoDup x -> Forall (fun v => v < length x) x ->
-  Permutation x (seq 0 (length x)).
-Proof.
-  intros Hnd Hf. apply NoDup_Permutation_bis; [exact Hnd|now rewrite seq_length|].
-  intros v Hv. apply in_seq. rewrite Forall_forall in Hf. specialize (Hf v Hv). lia.
-Qed.
-
-Lemma inverse_perm (x : list nat) : NoDup x -> Forall (fun v => v < length x) x ->
-  forall p, p < length x -> nth p (inverse x) 0 < length x /\ nth (nth p (inverse x) 0) x 0 = p.
-Proof.
-  intros Hnd Hf p Hp.
-  assert (Hin : In p x).
-  { apply (Permutation_in _ (Permutation_sym (perm_of_bounded x Hnd Hf))). apply in_seq. lia. }
-  destruct (In_nth _ _ 0 Hin) as (i & Hi & E). rewrite <- E, inverse_spec by assumption. split; [assumption|reflexivity].
-Qed.
-
-Lemma inverse_NoDup (x : list nat) : NoDup x -> Forall (fun v => v < length x) x ->
-  NoDup (inverse x) /\ Forall (fun v => v < length (inverse x)) (inverse x).
-Proof.
-  intros Hnd Hf. rewrite inverse_length. split.
-  - apply NoDup_nth with (d := 0). rewrite inverse_length. intros i j Hi Hj E.
-    destruct (inverse_perm x Hnd Hf i Hi) as (_ & A). destruct (inverse_perm x Hnd Hf j Hj) as (_ & B). congruence.
-  - apply Forall_forall. intros v Hv. destruct (In_nth _ _ 0 Hv) as (p & Hp & <-). rewrite inverse_length in Hp.
-    apply (inverse_perm x Hnd Hf p Hp).
-Qed.
 
 (* ------------------------------------------------------------------ psi is a permutation *)
 Section PsiPerm.
